@@ -154,6 +154,8 @@ struct Verdict
   uint64_t distinct = 0;    // 64-bit identity of the case for distinct counting (0 = use text hash)
   std::vector<std::string> classes; // labels for the class histogram
   bool infra = false;       // infrastructure problem (not a verdict)
+  uint64_t weight = 1;      // evaluations this case stands for (batched cases)
+  std::vector<uint64_t> more_distinct; // identities of the members of a batch (all non-trivial)
   static Verdict fail(const std::string &m)
   {
     Verdict v;
@@ -175,20 +177,22 @@ struct Stats
   std::map<std::string, std::string> info; // free-form key -> value (exhaustive flags etc.)
   uint64_t violations = 0;
   std::string first_violation_msg;
-  uint64_t sample_every = 1, sample_cap = 8;
+  uint64_t noted = 0, sample_next = 1, sample_cap = 8;
   void note(const Case &c, const Verdict &v)
   {
-    evaluations++;
-    if (v.nontrivial)
+    evaluations += v.weight;
+    if (v.nontrivial && v.more_distinct.empty())
       nontrivial.insert(v.distinct ? v.distinct : fnv64(c.text()));
+    for (uint64_t h : v.more_distinct)
+      nontrivial.insert(h);
     for (auto &k : v.classes)
       classes[k]++;
     if (!v.known.empty())
       known[v.known]++;
-    if (v.nontrivial && samples.size() < sample_cap && (evaluations % sample_every) == 0)
+    if (v.nontrivial && samples.size() < sample_cap && ++noted >= sample_next)
     {
       samples.push_back(c.text());
-      sample_every = sample_every * 3 + 1;
+      sample_next = sample_next * 3 + 1;
     }
   }
   void count(const std::string &k, uint64_t n = 1) { classes[k] += n; }
